@@ -163,10 +163,13 @@ func fromProtoMethod(protoService *client_j5pb.Service, protoMethod *client_j5pb
 		}
 	}
 
-	responseSchema, err := convertObjectItem(protoMethod.ResponseBody)
-	if err != nil {
-		return nil, err
+	// methods returning a raw http body have no response schema
+	if protoMethod.ResponseBody != nil {
+		responseSchema, err := convertObjectItem(protoMethod.ResponseBody)
+		if err != nil {
+			return nil, err
+		}
+		out.ResponseBody = responseSchema
 	}
-	out.ResponseBody = responseSchema
 	return out, nil
 }
